@@ -49,7 +49,7 @@ def loop_invs(it, dde):
             # the WHOLE earlier view is untouched and the records appended so far are the iterates
             "forall(0, old(args[0]._n), lambda k: args[0]._t[k] == old(args[0]._t)[k])",
             "forall(0, old(args[0]._n), lambda k: args[0]._y[k] == old(args[0]._y)[k])",
-            f"forall(0, i, lambda k: args[0]._t[old(args[0]._n) + k] == (k + 1) * dt)",
+            f"forall(0, i, lambda k: args[0]._t[old(args[0]._n) + k] == tstamp(k + 1))",
             f"forall(0, i, lambda k: args[0]._y[old(args[0]._n) + k] == {it}(k + 1))",
         ]
     return inv
@@ -78,8 +78,21 @@ def spec(it, dde):
     else:
         rec = (f"heun_iter(k + 1) == heun_iter(k) + dt / 2 * (func(k + t0, heun_iter(k){h}) + "
                f"func(k + t0, heun_iter(k) + dt * func(k + t0, heun_iter(k){h}){h}))")
-    return {it: dict(sig=(["int"], "row"),
-                     axioms=[f"{it}(0) == y", f"forall(0, INF, lambda k: {rec}, lambda k: {it}(k + 1))"])}
+    out = {it: dict(sig=(["int"], "row"),
+                    axioms=[f"{it}(0) == y", f"forall(0, INF, lambda k: {rec}, lambda k: {it}(k + 1))"])}
+    if dde:
+        # time stamp of the k-th appended record: keeps the quantified obligations free of non-linear terms
+        out["tstamp"] = dict(sig=(["int"], "real"), axioms=["forall(0, INF, lambda k: tstamp(k) == k * dt, lambda k: tstamp(k))"])
+    return out
+
+
+def instance(it, dde):
+    h = ", old(args[0]._n) + i" if dde else ""
+    extra = ["tstamp(i + 1) == (i + 1) * dt"] if dde else []
+    if it == "euler_iter":
+        return [f"euler_iter(i + 1) == euler_iter(i) + dt * func(i + t0, euler_iter(i){h})"] + extra
+    return [f"heun_iter(i + 1) == heun_iter(i) + dt / 2 * (func(i + t0, heun_iter(i){h}) + "
+            f"func(i + t0, heun_iter(i) + dt * func(i + t0, heun_iter(i){h}){h}))"] + extra
 
 
 def solver(name, method, it, dde):
@@ -93,7 +106,8 @@ def solver(name, method, it, dde):
         spec_funcs=spec(it, dde),
         loops={0: dict(counter="i", ghost=GHOST_QR, ghost_step=GHOST_STEP, invariant=loop_invs(it, dde),
                        lemmas=["implies(i == q * store_step + r and 0 <= r and r < store_step and store_step >= 1, "
-                               "i % store_step == r)"])},
+                               "i % store_step == r)"],
+                       axiom_instances=instance(it, dde))},
         ensures=post(it, dde, 1),
         returns="seq[row]",
         abstractions=ABS,
